@@ -199,6 +199,10 @@ Check (C08_multi_view_exact :
   forall m dt e s c,
   In s (m_svcs (fst (mstep m dt e))) -> find_ch c (s_chans s) <> None ->
   strong s c = mstrong (m_svcs (fst (mstep m dt e))) c).
+Check (C08_multi_commands_fifo :
+  forall tr m c,
+  forallb (fun de => negb (closes c (snd de))) tr = true ->
+  taken c tr (mrun m tr) ++ qfind c (m_q (mfinal m tr)) = qfind c (m_q m) ++ issued c (mrun m tr)).
 Check (C08_needs_two_per_peer :
   exists tr q,
   feasible 3 env0 (init true 1000 0) tr = true /\
